@@ -302,7 +302,7 @@ func (s *SpecValidator) validateSchemaPropertyNames(nm string, sch spec.Schema, 
 			}
 			dups = append(dups, dup...)
 		}
-		return dups, res
+		// the properties declared beside allOf are checked below, against what the allOf members declare
 	}
 
 	for k := range schc.Properties {
